@@ -11,8 +11,8 @@ namespace Rl4co.Gen
 /-- coordinate over `q`: `min_loc + u·(max_loc − min_loc)` -/
 def coordNum (minLoc maxLoc : Int) (p q : Nat) : Int := affNum minLoc maxLoc p q
 
-/-- `get_sampler(.., "center", low, high)` = `Uniform((high − low)/2, (high − low)/2)`: twice the constant value -/
-def centerTwice (lo hi : Int) : Int := hi - lo
+/-- `get_sampler(.., "center", low, high)` = `Uniform((high + low)/2, (high + low)/2)`: twice the constant value -/
+def centerTwice (lo hi : Int) : Int := hi + lo
 
 /-! ### CVRP (cvrp/generator.py) -/
 
@@ -36,16 +36,14 @@ def demandFits (demand : Int) (cap : Frac) : Bool := decide (demand * cap.2 ≤ 
 inductive PrizeType | const | unif | dist
   deriving DecidableEq, Repr
 
-/-- OP prize in hundredths.  `const` and `unif` evaluate `self.device`, an attribute `OPGenerator` never
-sets: the call raises (`none`).  `dist`: `(1 + (d / dmax · 99).int()) / 100`. `d`, `dmax` in the same unit. -/
-def opPrize100 (t : PrizeType) (d dmax : Int) : Option Int :=
+/-- OP prize in hundredths (the code divides by 100).
+`const`: `torch.ones`; `unif`: `(1 + randint(0, 100)) / 100`, `x` the integer draw;
+`dist`: `(1 + (d / dmax · 99).int()) / 100`, `x = d` and `dmax` in the same unit. -/
+def opPrize100 (t : PrizeType) (x dmax : Int) : Int :=
   match t with
-  | .const => none
-  | .unif => none
-  | .dist => some (1 + Int.tdiv (d * 99) dmax)
-
-/-- the value the `unif` branch would compute if `self.device` existed: `(1 + randint(0,100)) / 100` -/
-def opPrizeUnifIntended (r : Int) : Int := 1 + r
+  | .const => 100
+  | .unif => 1 + x
+  | .dist => 1 + Int.tdiv (x * 99) dmax
 
 def opMaxLength (override : Option Frac) (numLoc : Nat) : Option Frac :=
   match override with
@@ -113,25 +111,11 @@ def removeRepeat : List Nat → List Nat
   | [] => []
   | x :: xs => x :: (removeRepeat xs).map (fun y => if y = x then 0 else y)
 
-/-- one membership row of MCP `_generate` as coded.
-`items`: the `randint(1, num_items+1)` row of length `m = set_sizes.max()` (batch-global);
-`size`: this set's clamped size; `maxSizeParam = self.max_size`.
-`cutoffs_masks = arange(self.max_size) < size` has length `maxSizeParam`, the product
-`items * cutoffs_masks` broadcasts only if `m = maxSizeParam` or `m = 1` (or `maxSizeParam = 1`);
-otherwise torch raises (`none`). -/
-def mcpRow (maxSizeParam : Nat) (items : List Nat) (size : Nat) : Option (List Nat) :=
-  let m := items.length
-  if m = maxSizeParam then
-    some (removeRepeat ((List.range m).map (fun k => if k < size then items.getD k 0 else 0)))
-  else if m = 1 then
-    some (removeRepeat ((List.range maxSizeParam).map (fun k => if k < size then items.getD 0 0 else 0)))
-  else if maxSizeParam = 1 then
-    some (removeRepeat ((List.range m).map (fun k => if 0 < size then items.getD k 0 else 0)))
-  else none
-
-/-- the row the docstring describes (mask cut at the sampled maximum) — the minimal upstream repair
-`torch.arange(max_size)` -/
-def mcpRowIntended (items : List Nat) (size : Nat) : List Nat :=
+/-- one membership row of MCP `_generate`.
+`items`: the `randint(1, num_items+1)` row of length `m = set_sizes.max()` (batch-global maximum of the clamped
+sizes); `size`: this set's clamped size.  `cutoffs_masks = arange(m) < size` has the same width as the row:
+entries at positions `≥ size` are zeroed (0 = no item), then repeated items are removed. -/
+def mcpRow (items : List Nat) (size : Nat) : List Nat :=
   removeRepeat ((List.range items.length).map (fun k => if k < size then items.getD k 0 else 0))
 
 end Rl4co.Gen
